@@ -125,5 +125,21 @@ def gen(rng, tier):
     return cs
 
 
+def gen_run(exe, rng, tier):
+    import worldhist as WH
+    return WH.run_parallel(exe, rng, 60 if tier == "quick" else 2000, WH.tcp_history)
+
+
+def project(op, line):
+    import worldhist as WH
+    return WH.project(ID, op, line) if op in ("cfg", "tcpconn", "writer") else line
+
+
+def relevant_verdict(v):
+    return (not v.startswith("bad C")) or v.startswith("bad C14:")
+
+
 def nontrivial(c):
+    if c.tags.get("kind") == "tcpconn":
+        return bool(c.tags.get("answered"))
     return bool(c.tags.get("nontriv"))
